@@ -192,7 +192,10 @@ def build_model(case):
         model.set_classifier("KNNClassifier", n_neighbors=int(moe.get("n_neighbors", 1)))
         sub, so = moe.get("regressor", ["LinearRegressor", {}])
         model.set_regressor(sub, **_opts(so))
-    model.learn()
+    if case.get("samples"):
+        model.learn(samples=[int(i) for i in case["samples"]])
+    else:
+        model.learn()
     return model
 
 
